@@ -211,7 +211,15 @@ def cmp_expr(ty, got, want):
     return "((long)(%s) == (long)(%s))" % (got, want)
 
 
-def decl_inputs(b):
+def decl_inputs(b, variant=None):
+    out = decl_inputs0(b)
+    if variant:
+        # operand class by ASSIGNMENT (so that symbolic execution sees constants), not by assumption
+        out.append("\t%s" % variant)
+    return out
+
+
+def decl_inputs0(b):
     out = []
     names = "abcd"
     for i, t in enumerate(b["argtypes"]):
@@ -303,10 +311,12 @@ def gen_fold(bs, have_rt):
 
 def gen_fint(bs, have_rt):
     o = []
-    for b in bs:
+    for b0 in bs:
+      for vname, vcond in [(None, None)] + VARIANTS.get(b0["name"], []):
+        b = b0
         name = b["name"]
-        o.append("void h_fint_%s(void)\n{" % name)
-        o += decl_inputs(b)
+        o.append("void h_fint_%s%s(void)\n{" % (name, "__" + vname if vname else ""))
+        o += decl_inputs(b, vcond)
         o.append("\tunion dataObj ret; dataType ty; int op = FOAM_BVal_%s - FOAM_BVAL_START;" % name)
         o.append("\tv_fint_tape(op);")
         for i, t in enumerate(b["argtypes"]):
@@ -412,6 +422,26 @@ RT_HEAD = r'''
 '''
 
 
+# operand-class variants: the same obligations on a class of operands on which the float circuits stay small
+# enough for the solver (full-domain float multiply/divide agreement is undecided: 900 s+ on SAT and z3)
+VARIANTS = {
+    "DFloRPlus": [("b0_nearest", "b = 0.0; c = 1;")], "DFloRMinus": [("b0_nearest", "b = 0.0; c = 1;")],
+    "DFloRTimes": [("b1_nearest", "b = 1.0; c = 1;")], "DFloRDivide": [("b1_nearest", "b = 1.0; c = 1;")],
+    "SFloRPlus": [("b0_nearest", "b = 0.0f; c = 1;")], "SFloRMinus": [("b0_nearest", "b = 0.0f; c = 1;")],
+    "SFloRTimes": [("b1_nearest", "b = 1.0f; c = 1;")], "SFloRDivide": [("b1_nearest", "b = 1.0f; c = 1;")],
+}
+
+# canaries: the spec deliberately wrong in the way the property cares about; each must be refuted
+CANARY = {
+    "SIntPlus": W % ("%sa - %sb" % (U, U)),                 # wrong operator
+    "BoolAnd": "(a != 0 || b != 0)",                        # and/or confusion
+    "CharLT": "(a <= b)",                                   # off-by-one in an order
+    "SIntIsOdd": "((a % 2) == 1)",                          # wrong for negative odd numbers
+    "SIntShiftDn": "((long)(%sa >> b))" % U,                # logical instead of arithmetic shift
+    "SIntBit": "(((%sa >> (b + 1)) & 1UL) != 0)" % U,       # bit index off by one
+}
+
+
 def generate(outdir):
     os.makedirs(outdir, exist_ok=True)
     fb = tables.foam_bvals()
@@ -427,6 +457,20 @@ def generate(outdir):
         f.write(FINT_HEAD + COMMON + wr + gen_fint(bs, have_rt) + tail)
     with open(os.path.join(outdir, "gen_rt.c"), "w") as f:
         f.write(RT_HEAD + COMMON + wr + gen_rt(bs, have_rt) + tail)
+    # canary copies: same harnesses, SPEC overridden for the canary ops only
+    saved = dict(SPEC)
+    try:
+        SPEC.update(CANARY)
+        cbs = [b for b in bs if b["name"] in CANARY]
+        with open(os.path.join(outdir, "gen_fold_canary.c"), "w") as f:
+            f.write(FOLD_HEAD + COMMON + wr + gen_fold(cbs, have_rt) + tail)
+        with open(os.path.join(outdir, "gen_fint_canary.c"), "w") as f:
+            f.write(FINT_HEAD + COMMON + wr + gen_fint(cbs, have_rt) + tail)
+        with open(os.path.join(outdir, "gen_rt_canary.c"), "w") as f:
+            f.write(RT_HEAD + COMMON + wr + gen_rt(cbs, have_rt) + tail)
+    finally:
+        SPEC.clear()
+        SPEC.update(saved)
     return bs, have_rt, fb
 
 
